@@ -57,3 +57,11 @@ var _ = func() bool {
 }()
 
 var _ = fmt.Sprint
+
+var _ = func() bool {
+	// cfflat <seed> <hex source> <hex function name> -> the structure of the flattened graph (see ctrlflow.VerifFlatten)
+	verifOps["cfflat"] = func(a []string) string {
+		return ctrlflow.VerifFlatten(int64(verifInt(a[0])), string(verifUnhex(a[1])), string(verifUnhex(a[2])))
+	}
+	return true
+}()
